@@ -173,18 +173,10 @@ Proof.
   - inversion E; subst; apply wf_primary; exact H.
   - destruct (is_values v); inversion E; subst; exact H.
 Qed.
-Lemma wf_last_red : forall b m st v a, wf_val st v -> last_red b m v = Ok a -> wf_val st a.
-Proof.
-  intros b m st v a H E. destruct m, b; simpl in E; try (inversion E; subst; try exact H; apply wf_primary; exact H).
-  - destruct (is_values v); inversion E; subst; exact H.
-  - destruct (is_values v); inversion E; subst; exact H.
-Qed.
 Lemma wf_or_step : forall m st v r, wf_val st v -> or_step m v = Ok (Some r) -> wf_val st r.
 Proof.
-  intros m st v r H E. destruct m; simpl in E.
-  - destruct (is_nil v); inversion E; subst; exact H.
-  - destruct (is_nil (primary v)); inversion E; subst; apply wf_primary; exact H.
-  - destruct (is_values v); [discriminate|]. destruct (is_nil v); inversion E; subst; exact H.
+  intros m st v r H E. unfold or_step in E.
+  destruct (is_nil (primary v)); inversion E; subst; apply wf_primary; exact H.
 Qed.
 Lemma wf_values_list : forall st v, wf_val st v -> wf_vals st (values_list v).
 Proof.
@@ -349,22 +341,13 @@ Proof. intros; split; [assumption|split; [assumption|]]. intros a0 C; inversion 
 Lemma wf_callable_ext : forall st st' c, ext st st' -> wf_callable st c -> wf_callable st' c.
 Proof. intros st st' [ps body sc|p] E W; simpl in *; [eapply wf_scope_ext; eauto|exact I]. Qed.
 
-Lemma ev_progn_wf : forall es st sc, wf_state st -> wf_scope st sc -> good_res st wf_val (ev_progn m ev st sc es).
-Proof.
-  induction es as [|e es IH]; intros st sc W S; [apply good_ret; [assumption|apply wf_nil]|].
-  destruct es as [|e' es'].
-  - simpl. eapply good_bind; [apply Hev; assumption|]. intros v s E Ws Vs.
-    apply good_out; [assumption|]. intros a Ha. eapply wf_last_red; eauto.
-  - change (ev_progn m ev st sc (e :: e' :: es')) with (bind (ev st sc e) (fun v st1 => ev_progn m ev st1 sc (e' :: es'))).
-    eapply good_bind; [apply Hev; assumption|]. intros v s E Ws Vs. apply IH; [assumption|eapply wf_scope_ext; eauto].
-Qed.
 Lemma ev_cond_wf : forall cls st sc, wf_state st -> wf_scope st sc -> good_res st wf_val (ev_cond m ev st sc cls).
 Proof.
   induction cls as [|[c body] cls IH]; intros st sc W S; simpl; [apply good_ret; [assumption|apply wf_nil]|].
   eapply good_bind; [apply Hev; assumption|]. intros v s E Ws Vs.
-  apply good_bindo; [assumption|]. intros b Hb. destruct b.
+  unfold truthy; simpl. destruct (negb (is_nil (primary v))).
   - destruct body.
-    + apply good_out; [assumption|]. intros a Ha. eapply wf_last_red; eauto.
+    + apply good_ret; [assumption|apply wf_primary; assumption].
     + apply ev_seq_wf; [assumption|eapply wf_scope_ext; eauto|apply wf_nil].
   - apply IH; [assumption|eapply wf_scope_ext; eauto].
 Qed.
@@ -422,9 +405,8 @@ Proof.
   induction ps as [|[x e] ps IH]; intros st sc last W S L; simpl; [apply good_ret; assumption|].
   eapply good_bind; [apply Hev; assumption|]. intros v s E Ws Vs.
   eapply good_bind; [apply assign_wf; [assumption|apply wf_primary; assumption]|]. intros u s2 E2 W2 _.
-  apply good_bindo; [assumption|]. intros r Hr.
   apply IH; [assumption|eapply wf_scope_ext; [exact E2|eapply wf_scope_ext; [exact E|exact S]]|].
-  eapply wf_val_ext; [exact E2|]. eapply wf_last_red; eauto.
+  eapply wf_val_ext; [exact E2|]. apply wf_primary; assumption.
 Qed.
 Lemma apply_fn_wf : forall st c args, wf_state st -> wf_callable st c -> wf_vals st args ->
   good_res st wf_val (apply_fn m ev st c args).
@@ -443,11 +425,10 @@ Proof.
   induction rows as [|row rows IH]; intros st c W C R; simpl; [apply good_ret; [assumption|constructor]|].
   inversion R; subst.
   eapply good_bind; [apply apply_fn_wf; assumption|]. intros v s E Ws Vs.
-  apply good_bindo; [assumption|]. intros a Ha.
   eapply good_bind; [apply IH; [assumption|eapply wf_callable_ext; eauto|]|].
   - eapply Forall_impl; [|eassumption]. intros; eapply wf_vals_ext; eauto.
   - intros vs s2 E2 W2 V2. apply good_ret; [assumption|]. constructor; [|exact V2].
-    eapply wf_val_ext; [exact E2|]. eapply wf_last_red; eauto.
+    eapply wf_val_ext; [exact E2|]. apply wf_primary; assumption.
 Qed.
 Lemma ev_iter_wf : forall vs st sc f x es, wf_state st -> wf_scope st sc -> wf_vals st vs ->
   good_res st ptrue (ev_iter ev st sc f x vs es).
@@ -469,17 +450,16 @@ Proof. intros; constructor; [simpl; split; [assumption|lia]|assumption]. Qed.
 Lemma ext_frames_length : forall st st', ext st st' -> List.length (frames st) <= List.length (frames st').
 Proof. intros st st' (L & _); exact L. Qed.
 
-Lemma ev_inits_seq_wf : forall bs st sc f, wf_state st -> wf_scope st sc -> f < List.length (frames st) ->
-  good_res st ptrue (ev_inits_seq m ev st sc f bs).
+Definition wf_scope_res (st : state) (sc : scope) : Prop := wf_scope st sc.
+Lemma ev_inits_seq_wf : forall bs st sc, wf_state st -> wf_scope st sc ->
+  good_res st wf_scope_res (ev_inits_seq m ev st sc bs).
 Proof.
-  induction bs as [|[[x e] s0] bs IH]; intros st sc f W S F; simpl; [apply good_ret; [assumption|exact I]|].
-  eapply good_bind; [apply Hev; [assumption|apply wf_scope_cur; assumption]|]. intros v s E Ws Vs.
+  induction bs as [|[[x e] s0] bs IH]; intros st sc W S; simpl; [apply good_ret; assumption|].
+  eapply good_bind; [apply Hev; assumption|]. intros v s E Ws Vs.
   apply good_bindo; [assumption|]. intros a Ha.
-  eapply good_from; [apply ext_bind_in, ext_refl|].
-  apply IH.
-  - apply wf_bind_in; [assumption|eapply wf_store_red; eauto].
-  - eapply wf_scope_ext; [apply ext_bind_in, ext_refl|]. eapply wf_scope_ext; eauto.
-  - pose proof (ext_frames_length _ _ E). pose proof (ext_frames_length _ _ (ext_bind_in s s f x a (ext_refl s))). lia.
+  apply (good_alloc_then scope s [(x, a)] sc wf_scope_res (fun st2 sc2 => ev_inits_seq m ev st2 sc2 bs)); auto.
+  - constructor; [|constructor]. simpl. eapply wf_store_red; eauto.
+  - eapply wf_scope_ext; eauto.
 Qed.
 Definition wf_pairs (st : state) (xs : list (string * val)) : Prop := Forall (fun xv => wf_val st (snd xv)) xs.
 Lemma ev_steps_par_wf : forall bs st sc, wf_state st -> wf_scope st sc -> good_res st wf_pairs (ev_steps_par m ev st sc bs).
@@ -490,9 +470,10 @@ Proof.
   eapply good_bind; [apply IH; [assumption|eapply wf_scope_ext; eauto]|]. intros xs s2 E2 W2 V2.
   apply good_ret; [assumption|]. constructor; [|exact V2]. simpl. eapply wf_val_ext; [exact E2|]. eapply wf_store_red; eauto.
 Qed.
-Lemma ev_steps_seq_wf : forall bs st sc f, wf_state st -> wf_scope st sc -> good_res st ptrue (ev_steps_seq m ev st sc f bs).
+Lemma ev_steps_seq_wf : forall bs st sc fs, wf_state st -> wf_scope st sc -> good_res st ptrue (ev_steps_seq m ev st sc fs bs).
 Proof.
-  induction bs as [|[[x e] [s0|]] bs IH]; intros st sc f W S; simpl; [apply good_ret; [assumption|exact I]| |apply IH; assumption].
+  induction bs as [|[[x e] [s0|]] bs IH]; intros st sc [|f fs] W S; simpl;
+    try (apply good_ret; [assumption|exact I]); try (apply good_err; assumption); [|apply IH; assumption].
   eapply good_bind; [apply Hev; assumption|]. intros v s E Ws Vs.
   apply good_bindo; [assumption|]. intros a Ha.
   eapply good_from; [apply ext_bind_in, ext_refl|].
@@ -540,7 +521,7 @@ Proof.
     apply good_ret; [assumption|eapply wf_cell_get; eauto].
   - (* EQuote *) apply good_ret; [assumption|apply wf_val_inj].
   - (* EFun *) apply good_bindo; [assumption|]. intros c Hc. apply good_ret; [assumption|constructor].
-  - (* EProgn *) apply ev_progn_wf; assumption.
+  - (* EProgn *) apply ev_seq_wf; [assumption|assumption|apply wf_nil].
   - (* EProg1 *) change (evalF m ev st sc (EProg1 e es)) with (bind (ev_args m ev st sc (e :: es)) (fun vs st1 => (Ok (hd VNil vs), st1))).
     gb ltac:(apply ev_args_wf). intros vs s E Ws Vs. apply good_ret; [assumption|apply wf_hd; assumption].
   - (* EIf *) gb ltac:(apply ev_test_wf). intros t s E Ws _. destruct t; [apply Hev; ws|apply ev_opt_wf; ws].
@@ -616,61 +597,48 @@ Proof.
     eapply good_bind; [apply ev_map_wf; [assumption|apply (wf_resolve s fv c Ws Vf Hc)|apply wf_transpose; eapply wf_lists_of; [exact Va|exact L]]|].
     intros rs s2 E2 W2 V2. apply good_ret; [assumption|apply wf_val_mk_list; assumption].
   - (* EDolist *)
-    change (mkSt (frames st ++ [[]]) (funs st) (trace st)) with (snd (alloc st [])).
-    assert (E1 : ext st (snd (alloc st []))) by (apply ext_alloc, ext_refl).
-    assert (W1 : wf_state (snd (alloc st []))) by (apply wf_alloc; [assumption|constructor]).
-    assert (F1 : List.length (frames st) < List.length (frames (snd (alloc st [])))) by (simpl; rewrite app_length; simpl; lia).
-    eapply good_from; [exact E1|].
-    eapply good_bind; [apply Hev; [assumption|apply (wf_scope_alloc st [] sc); assumption]|]. intros v s E Ws Vs.
-    apply good_bindo; [assumption|]. intros v' Hv'.
-    assert (Vv' : wf_val s v').
-    { destruct (is_values v); [eapply wf_last_red; eauto|inversion Hv'; subst; assumption]. }
-    destruct (list_of v') as [vs|] eqn:L; [|apply good_err; assumption].
-    assert (Fs : List.length (frames st) < List.length (frames s)) by (pose proof (ext_frames_length _ _ E); lia).
-    assert (Ssc : wf_scope s sc) by (eapply wf_scope_ext; [exact E|eapply wf_scope_ext; eauto]).
+    eapply good_bind; [apply Hev; assumption|]. intros v s E Ws Vs.
+    assert (Vv' : wf_val s (primary v)) by (apply wf_primary; assumption).
+    destruct (list_of (primary v)) as [vs|] eqn:L; [|apply good_err; assumption].
+    assert (Ssc : wf_scope s sc) by (eapply wf_scope_ext; eauto).
+    change (mkSt (frames s ++ [[(x, VNil)]]) (funs s) (trace s)) with (snd (alloc s [(x, VNil)])).
+    assert (E3 : ext s (snd (alloc s [(x, VNil)]))) by (apply ext_alloc, ext_refl).
+    assert (W3 : wf_state (snd (alloc s [(x, VNil)]))) by (apply wf_alloc; [assumption|constructor; [apply wf_nil|constructor]]).
+    assert (S3 : wf_scope (snd (alloc s [(x, VNil)])) ((List.length (frames s), 1) :: sc)) by (apply (wf_scope_alloc s [(x, VNil)] sc); assumption).
+    eapply good_from; [exact E3|].
     eapply good_bind.
-    + eapply good_from; [apply ext_bind_in, ext_refl|]. apply ev_iter_wf.
-      * apply wf_bind_in; [assumption|apply wf_nil].
-      * apply wf_scope_loop; assumption.
-      * eapply wf_vals_ext; [apply ext_bind_in, ext_refl|eapply wf_list_of; eauto].
-    + intros u s3 E3 W3 _.
+    + apply ev_iter_wf; [exact W3|exact S3|eapply wf_vals_ext; [exact E3|eapply wf_list_of; eauto]].
+    + intros u s4 E4 W4 _.
       eapply good_from; [apply ext_bind_in, ext_refl|]. apply ev_opt_wf; [apply wf_bind_in; [assumption|apply wf_nil]|].
-      apply wf_scope_loop; [pose proof (ext_frames_length _ _ E3); lia|ws].
+      eapply wf_scope_ext; [apply ext_bind_in, ext_refl|]. eapply wf_scope_ext; [exact E4|exact S3].
   - (* EDotimes *)
-    change (mkSt (frames st ++ [[]]) (funs st) (trace st)) with (snd (alloc st [])).
-    assert (E1 : ext st (snd (alloc st []))) by (apply ext_alloc, ext_refl).
-    assert (W1 : wf_state (snd (alloc st []))) by (apply wf_alloc; [assumption|constructor]).
-    assert (F1 : List.length (frames st) < List.length (frames (snd (alloc st [])))) by (simpl; rewrite app_length; simpl; lia).
-    eapply good_from; [exact E1|].
-    eapply good_bind; [apply Hev; [assumption|apply (wf_scope_alloc st [] sc); assumption]|]. intros v s E Ws Vs.
-    apply good_bindo; [assumption|]. intros v' Hv'.
-    destruct v'; try (apply good_err; assumption).
-    assert (Fs : List.length (frames st) < List.length (frames s)) by (pose proof (ext_frames_length _ _ E); lia).
-    assert (Ssc : wf_scope s sc) by (eapply wf_scope_ext; [exact E|eapply wf_scope_ext; eauto]).
+    eapply good_bind; [apply Hev; assumption|]. intros v s E Ws Vs.
+    destruct (primary v); try (apply good_err; assumption).
+    assert (Ssc : wf_scope s sc) by (eapply wf_scope_ext; eauto).
+    change (mkSt (frames s ++ [[(x, VNil)]]) (funs s) (trace s)) with (snd (alloc s [(x, VNil)])).
+    assert (E3 : ext s (snd (alloc s [(x, VNil)]))) by (apply ext_alloc, ext_refl).
+    assert (W3 : wf_state (snd (alloc s [(x, VNil)]))) by (apply wf_alloc; [assumption|constructor; [apply wf_nil|constructor]]).
+    assert (S3 : wf_scope (snd (alloc s [(x, VNil)])) ((List.length (frames s), 1) :: sc)) by (apply (wf_scope_alloc s [(x, VNil)] sc); assumption).
+    eapply good_from; [exact E3|].
     eapply good_bind.
-    + eapply good_from; [apply ext_bind_in, ext_refl|]. apply ev_iter_wf.
-      * apply wf_bind_in; [assumption|apply wf_nil].
-      * apply wf_scope_loop; assumption.
-      * apply wf_ints.
-    + intros u s3 E3 W3 _. apply good_bindo; [assumption|]. intros k' Hk'.
+    + apply ev_iter_wf; [exact W3|exact S3|apply wf_ints].
+    + intros u s4 E4 W4 _.
       eapply good_from; [apply ext_bind_in, ext_refl|]. apply ev_opt_wf; [apply wf_bind_in; [assumption|constructor]|].
-      apply wf_scope_loop; [pose proof (ext_frames_length _ _ E3); lia|ws].
+      eapply wf_scope_ext; [apply ext_bind_in, ext_refl|]. eapply wf_scope_ext; [exact E4|exact S3].
   - (* EDo *) destruct star.
     + change (mkSt (frames st ++ [[]]) (funs st) (trace st)) with (snd (alloc st [])).
       assert (E1 : ext st (snd (alloc st []))) by (apply ext_alloc, ext_refl).
       assert (W1 : wf_state (snd (alloc st []))) by (apply wf_alloc; [assumption|constructor]).
       eapply good_from; [exact E1|].
-      eapply good_bind; [apply ev_inits_seq_wf; [assumption|ws|simpl; rewrite app_length; simpl; lia]|].
-      intros u s E Ws _. apply Hev; [assumption|]. apply wf_scope_cur; [|ws].
-      pose proof (ext_frames_length _ _ E). simpl in *. rewrite app_length in *. simpl in *. lia.
+      eapply good_bind; [apply ev_inits_seq_wf; [assumption|apply (wf_scope_alloc st [] sc); assumption]|].
+      intros sc1 s E Ws Ssc1. apply Hev; assumption.
     + gb ltac:(apply ev_inits_wf). intros vs s E Ws Vs.
       apply (good_alloc_then val s (mk_frame (map (fun b => fst (fst b)) bs) vs) sc wf_val
                (fun st2 sc2 => ev st2 sc2 (EDoLoop false bs e rs es))); ws.
       apply wf_mk_frame; assumption.
   - (* EDoLoop *) destruct sc as [|[f h] sc']; [apply good_err; assumption|].
-    apply good_bindo; [assumption|]. intros never Hn.
     eapply good_bind.
-    + instantiate (1 := ptrue). destruct never; [apply good_ret; [assumption|exact I]|apply ev_test_wf; assumption].
+    + apply ev_test_wf; assumption.
     + intros t s E Ws _. destruct t; [apply ev_seq_wf; ws; apply wf_nil|].
       eapply good_bind; [apply ev_seq_wf; [assumption|ws|apply wf_nil]|]. intros u s2 E2 W2 _.
       assert (S2 : wf_scope s2 ((f, h) :: sc')) by (eapply wf_scope_ext; [exact E2|ws]).
